@@ -64,10 +64,32 @@ def apply_patch(d, patch):
     return None
 
 
+def apply_sed(d, subs):
+    """whole-tree identifier renames: [[regex, replacement], ...] applied to every .rs file under src/"""
+    n = 0
+    for root, _dirs, files in os.walk(os.path.join(d, "src")):
+        for fn in files:
+            if fn.endswith(".rs"):
+                p = os.path.join(root, fn)
+                s = open(p).read()
+                t = s
+                for rx, rep in subs:
+                    t = re.sub(rx, rep, t)
+                if t != s:
+                    n += 1
+                    open(p, "w").write(t)
+    return None if n else "no file changed"
+
+
 def run_one(m, prop, slot, repo="/repo"):
     d = scratch(repo)
     try:
-        err = apply_patch(d, m["patch"]) if m.get("patch") else apply_edits(d, m["edits"])
+        if m.get("patch"):
+            err = apply_patch(d, m["patch"])
+        elif m.get("sed"):
+            err = apply_sed(d, m["sed"])
+        else:
+            err = apply_edits(d, m["edits"])
         if err:
             return {"id": m["id"], "prop": prop, "status": "skipped (source drift)", "detail": err}
         r = subprocess.run([os.path.join(VERIF, "check"), prop, "--repo", d, "--slot", slot, "--no-evidence"],
